@@ -1,6 +1,8 @@
 import Enc.Model.Json.Stream
 import Enc.Spec.Json.Grammar
 import Enc.Lemmas.StreamStable
+import Enc.Lemmas.StreamFull
+import Enc.Spec.Json.StreamSpec
 /-!
 # C11 — json.Decoder yields the same value stream however the bytes arrive
 Property theorems only.
@@ -55,5 +57,28 @@ example : parseNumber [0x31] = .ok .uint [] ∧ parseNumber [0x31, 0x32] = .ok .
 theorem flags_irrelevant (fl : PFlags) (depth f : Nat) (b : Bytes) (hq : Lemmas.JsonString.QSound fl b) :
     parseValue fl depth f b = parseValue {} depth f b :=
   Lemmas.StreamStable.parseValue_flags fl depth f b hq
+
+/-! ## the whole Decoder loop (proofs in Enc/Lemmas/StreamFull.lean, on top of the window theorems above) -/
+
+open Lemmas.StreamFull in
+/-- **MAIN.** For every script of `Read` results without errors (any chunk sizes, zero-length reads included) ending
+in io.EOF, and any buffer constants with `0 < minReadSize ≤ minBufferSize`: the values `Decode` yields, and how the
+stream ends, are those of the specification applied to the concatenated bytes — RFC 8259 values (nesting ≤ 10000)
+separated by white space, then EOF or an error. -/
+theorem decodeAll_eq_spec {minBuf minRead : Nat} (h0 : 0 < minRead) (h1 : minRead ≤ minBuf)
+    (evs : Reader) (hc : ∀ e ∈ evs, e.err = none) (limit : Nat) :
+    (decodeAll minBuf minRead limit { reader := evs, final := .eof }).map erase =
+      Spec.Json.specStream limit (evs.map (·.data)).flatten :=
+  Lemmas.StreamFull.decodeAll_clean h0 h1 evs hc limit
+
+open Lemmas.StreamFull in
+/-- **Chunking independence**, the property as stated: two scripts with the same bytes give the same outputs
+(raw value bytes, kinds and final outcome). -/
+theorem chunking_independent {minBuf minRead : Nat} (h0 : 0 < minRead) (h1 : minRead ≤ minBuf)
+    (evs₁ evs₂ : Reader) (hc₁ : ∀ e ∈ evs₁, e.err = none) (hc₂ : ∀ e ∈ evs₂, e.err = none)
+    (heq : (evs₁.map (·.data)).flatten = (evs₂.map (·.data)).flatten) (limit : Nat) :
+    decodeAll minBuf minRead limit { reader := evs₁, final := .eof } =
+      decodeAll minBuf minRead limit { reader := evs₂, final := .eof } :=
+  Lemmas.StreamFull.chunking_independent h0 h1 evs₁ evs₂ hc₁ hc₂ heq limit
 
 end Enc.Props.C11
